@@ -30,9 +30,10 @@
    (BlockResults preimage + height, Tx bound to its proof, complete BlockID and LastCommit
    binding in Block/BlockByHash/BlockchainInfo, key path for absence proofs); the behaviour of
    the unrepaired v0.34.24 code is kept as Weak_* switches (marked "(v0.34.24)").
-   Two bindings cannot be repaired in light/rpc and are known findings: ConsistentStrict
+   Three bindings cannot be repaired in light/rpc and are known findings: ConsistentStrict
    demands them, Consistent does not (Tx.TxResult vs LastResultsHash; Validator.Address vs
-   PubKey).  Deliberate deviations of the code are modelled as such and named where they
+   PubKey; the commit of a block obtained by BACKWARDS verification, whose signatures are
+   never verified).  Deliberate deviations of the code are modelled as such and named where they
    occur: BlockchainInfo advances the light client only to the lowest returned height (honest
    multi-height answers are rejected by a light client that has not seen the higher heights --
    outside the statement's list, reported as an observation); a malformed commit block id
